@@ -1191,3 +1191,10 @@ mod tests {
         });
     }
 }
+
+/// Verification harness with access to `Batcher` and DZKP batches (`ipa-verif` feature only).
+#[cfg(all(test, feature = "ipa-verif"))]
+#[allow(clippy::all, clippy::pedantic, dead_code, unused_imports)]
+pub(crate) mod verif_context {
+    include!(concat!(env!("IPA_VERIF_DIR"), "/harness/context.rs"));
+}
